@@ -492,9 +492,10 @@ async fn server_level(rep: &mut Report, mats: &[Material], base: &Path) {
     let _ = std::fs::remove_dir_all(&dir);
 }
 
-/// Automatic path: the file watcher (start_watching, debounce 0) decides when reload() runs. After every update of the
-/// files on disk the state must settle on: the pair on disk if it is a valid pair, the previous state otherwise —
-/// and the watcher keeps working after failures.
+/// Automatic path: the file watcher (start_watching, debounce 0) decides when reload() runs — and whether (that is not
+/// part of the property). After every update of the files on disk and whatever reloads it triggered: the served
+/// certificate changes only together with a successful reload, to a pair that was on disk during the update, and the
+/// reported information is that of the served certificate.
 async fn watcher_level(rep: &mut Report, mats: &[Material], base: &Path) {
     let dir = base.join("watcher-level");
     let _ = std::fs::create_dir_all(&dir);
@@ -525,29 +526,47 @@ async fn watcher_level(rep: &mut Report, mats: &[Material], base: &Path) {
         (vec![Op::WritePair(6)], Some(6)),
         (vec![Op::WriteCert(1)], None),
         (vec![Op::WriteKey(1)], Some(1)),
+        // a manual reload() (the operator's signal) landing inside the watcher's settle delay, then the files go bad
+        // before the watcher's own reload runs: the manual reload's result stays
+        (vec![Op::WritePair(2), Op::Reload, Op::GarbageCert], Some(2)),
+        (vec![Op::WritePair(0), Op::Reload, Op::DeleteKey], Some(0)),
+        (vec![Op::WritePair(1)], Some(1)),
     ];
-    let mut active = 0usize;
     let mut done: Vec<String> = vec![];
-    for (ops, expect) in history {
+    let Ok((mut prev, _)) = snapshot(&reloader).await else {
+        rep.machinery("watcher-level: initial handshake failed".to_string());
+        return;
+    };
+    for (ops, _expect) in history {
         let count_before = reloader.get_reload_count();
+        let manual = ops.contains(&Op::Reload);
+        // pairs (certificate material, key material) that were on disk together at some moment of this step
+        let on_disk = |st: &State| -> Option<(usize, usize)> {
+            let c = std::fs::read(&st.cert).ok().and_then(|c| denotes(&c, mats, false))?;
+            let k = std::fs::read(&st.key).ok().and_then(|c| denotes(&c, mats, true))?;
+            Some((c, k))
+        };
+        let mut seen_pairs: Vec<(usize, usize)> = on_disk(&st).into_iter().collect();
         for op in &ops {
-            apply_disk(op, &st, mats);
-            tokio::time::sleep(std::time::Duration::from_millis(30)).await;
+            if *op == Op::Reload {
+                let _ = reloader.reload();
+            } else {
+                apply_disk(op, &st, mats);
+            }
+            seen_pairs.extend(on_disk(&st));
+            tokio::time::sleep(std::time::Duration::from_millis(if manual { 15 } else { 30 })).await;
         }
         done.push(ops.iter().map(|o| op_str(o, mats)).collect::<Vec<_>>().join(","));
         let what = format!("watcher level, after [{}]", done.join(" | "));
         rep.case(Some(&what));
-        // settle: wait for the reload the update should trigger (or long enough for a failing one to have run)
+        // settle: whatever reloads the update triggers (none is demanded: when the watcher reloads is its own business)
         let t0 = std::time::Instant::now();
         loop {
             let waited = t0.elapsed().as_millis();
-            if (expect.is_some() && reloader.get_reload_count() > count_before && waited > 250) || waited > if expect.is_some() { 4000 } else { 900 } {
+            if (reloader.get_reload_count() > count_before && waited > 700) || waited > 1200 {
                 break;
             }
             tokio::time::sleep(std::time::Duration::from_millis(20)).await;
-        }
-        if let Some(x) = expect {
-            active = x;
         }
         match snapshot(&reloader).await {
             Err(e) => {
@@ -555,17 +574,28 @@ async fn watcher_level(rep: &mut Report, mats: &[Material], base: &Path) {
                 break;
             }
             Ok((now, _)) => {
-                if now.leaf != mats[active].der {
-                    let served = mats.iter().find(|m| m.der == now.leaf).map(|m| m.name).unwrap_or("an unknown certificate");
-                    let key = if expect.is_some() { "C18:watcher:valid-pair-on-disk-not-activated" } else { "C18:watcher:state-changed-although-nothing-valid-on-disk" };
-                    rep.violation(key, &format!("{what}: handshakes are served {served}, expected {}", mats[active].name), json!({"engine": "LX-watcher", "history": done}));
+                let Some(x) = mats.iter().position(|m| m.der == now.leaf) else {
+                    rep.violation("C18:unknown-certificate-served", &what, json!({"engine": "LX-watcher", "history": done}));
+                    break;
+                };
+                if now.count == prev.count && now.leaf != prev.leaf {
+                    rep.violation("C18:failed-reload-changed-state", &format!("{what}: no reload succeeded (count stays {}), yet handshakes are now served {} instead of {}", now.count, mats[x].name, mats.iter().find(|m| m.der == prev.leaf).map(|m| m.name).unwrap_or("?")), json!({"engine": "LX-watcher", "history": done}));
                     break;
                 }
-                let want_serial = mats[active].serial_hex.trim_start_matches('0').to_string();
+                if now.count > prev.count && now.leaf != prev.leaf && !seen_pairs.iter().any(|(c, k)| *c == x && mats[*c].key_pem == mats[*k].key_pem) {
+                    rep.violation("C18:reload-accepted-inconsistent-disk-state", &format!("{what}: a reload succeeded and handshakes are now served {}, which was not on disk with its key during this update (pairs seen on disk: {:?})", mats[x].name, seen_pairs.iter().map(|(c, k)| (mats[*c].name, mats[*k].name)).collect::<Vec<_>>()), json!({"engine": "LX-watcher", "history": done}));
+                    break;
+                }
+                if mats[x].expired {
+                    rep.violation("C18:expired-certificate-activated", &format!("{what}: a certificate that expired long ago is served"), json!({"engine": "LX-watcher", "history": done}));
+                    break;
+                }
+                let want_serial = mats[x].serial_hex.trim_start_matches('0').to_string();
                 if now.info_serial.as_deref() != Some(want_serial.as_str()) {
-                    rep.violation("C18:reported-info-not-of-active-certificate", &format!("{what}: the active certificate is {} (serial {want_serial}), get_cert_info() reports serial {:?}", mats[active].name, now.info_serial), json!({"engine": "LX-watcher", "history": done}));
+                    rep.violation("C18:reported-info-not-of-active-certificate", &format!("{what}: handshakes are served {} (serial {want_serial}), get_cert_info() reports serial {:?} (reload count {})", mats[x].name, now.info_serial, now.count), json!({"engine": "LX-watcher", "history": done}));
                     break;
                 }
+                prev = now;
             }
         }
     }
@@ -697,5 +727,5 @@ pub fn run(tier: Tier) -> i32 {
     }
     let _ = std::fs::remove_dir_all(&base);
     rep.sections.insert("jobs".into(), json!({"histories": n_jobs, "depth": depth, "alphabet": alphabet.iter().map(|o| op_str(o, &mats)).collect::<Vec<_>>(), "truncation_prefixes": clen + klen + 2, "sync_points": points}));
-    rep.finish("BX: every history of depth d (+ a final reload) over {write cert/key of pairs B, C, expired D, A2 (same key and serial as A), B2 (same serial as B) (each file alone), truncate cert/key, garbage, delete, reload}; every byte prefix of cert and key; a disk operation landing at each of 5 points inside a reload for 6 pre-states; after every step a real TLS handshake against the current acceptor, get_cert_info / count / last_reload compared with the previous snapshot; plus a real Server (new_with_reloadable_tls on the reloader's shared acceptor, as bin/server.rs builds it) on loopback whose fresh TCP+TLS connections are checked after every step of a 9-step reload history; plus the automatic path (file watcher, debounce 0) through a 10-step update history in real time; non-trivial = distinct history")
+    rep.finish("BX: every history of depth d (+ a final reload) over {write cert/key of pairs B, C, expired D, A2 (same key and serial as A), B2 (same serial as B) (each file alone), truncate cert/key, garbage, delete, reload}; every byte prefix of cert and key; a disk operation landing at each of 5 points inside a reload for 6 pre-states; after every step a real TLS handshake against the current acceptor, get_cert_info / count / last_reload compared with the previous snapshot; plus a real Server (new_with_reloadable_tls on the reloader's shared acceptor, as bin/server.rs builds it) on loopback whose fresh TCP+TLS connections are checked after every step of a 9-step reload history; plus the automatic path (file watcher, debounce 0) through a 13-step update history in real time (incl. manual reloads landing inside the watcher's settle delay); non-trivial = distinct history")
 }
